@@ -2,7 +2,7 @@
    Statements over the executable model (join_world with tryj = true), closed by `exact`. *)
 From Coq Require Import List Arith Bool.
 Import ListNotations.
-Require Import ScanFull InstsFull ObligJoin C04Join C11Groups C05Join C02Join C04When.
+Require Import ScanFull InstsFull Monitors ObligJoin C04Join C11Groups C05Join C02Join C04When.
 
 (* For all n, child behaviours, histories, both strategies, slice and tuple variants, while not dropped: no result yet, or exactly
    one result o with [Okres true n o P] where P is the list of all child polls made so far:
@@ -45,3 +45,10 @@ Example C05_witness :
   dropped _ w = false /\ results (strip (tr _ w)) = [OErr 3] /\
   existsb (fun e => match e with EV 7 => true | _ => false end) (tr _ (join_world true true false scs (ops ++ [ODrop]))) = true.
 Proof. vm_compute. repeat split; reflexivity. Qed.
+
+(* the same statement as a boolean predicate over the observable trace (c05_b_spec: it is equivalent to the disjunction above); this is the function
+   that runner/montool.ml evaluates on every trace of the crate *)
+Theorem C05_result_predicate_holds selective tryj tuple scs ops : let w := join_world selective tryj tuple scs ops in
+  dropped _ w = false -> c05_b tryj (length scs) (strip (tr _ w)) = true.
+Proof. exact (c05_b_holds selective tryj tuple scs ops). Qed.
+Print Assumptions C05_result_predicate_holds.
